@@ -780,7 +780,9 @@ def _prepare_results(results, data, debug):
     if debug:
         results = pd.DataFrame({**data, **results})
     else:
-        results = pd.DataFrame(results)
+        # Pass the index explicitly: functions depending on parameters only return
+        # scalars, which pandas can only broadcast if it knows the number of rows.
+        results = pd.DataFrame(results, index=pd.RangeIndex(len(data["p_id"])))
     results = _reorder_columns(results)
 
     return results
